@@ -878,6 +878,45 @@ func (m *Model) asBuiltEarly(s S, tl []string, hasEnum bool, v any, p Pos) (Verd
 			}
 		}
 	}
+	// null handed to the unmarshaler of a nullable object in a non-pointer position: the struct stays at its zero value and
+	// the validators of its required (non-pointer) members then judge 0 and ""
+	if m.dev("NULL_OBJECT_VALIDATES_ZERO") && v == nil && has(tl, "null") && !(p.Kind == "prop" && p.Optional) && !noMethodsStruct(p) {
+		if props, ok := s["properties"].(map[string]any); ok {
+			reqd := requiredSet(s)
+			for _, k := range jsonv.Keys(props) {
+				pm, _ := props[k].(map[string]any)
+				if pm == nil || !reqd[k] {
+					continue
+				}
+				if _, hasDef := pm["default"]; hasDef {
+					continue
+				}
+				if _, isEnum := pm["enum"]; isEnum {
+					continue
+				}
+				pt := typeList(pm)
+				if len(pt) != 1 {
+					continue
+				}
+				zp := p
+				zp.Kind = "prop"
+				zp.Path = p.Path + "/" + k
+				var r Verdict = Accept
+				switch pt[0] {
+				case "string":
+					if _, isFmt := pm["format"]; !isFmt {
+						r = m.str(pm, "", zp)
+					}
+				case "integer", "number":
+					r = m.numeric(pm, json.Number("0"), zp, pt[0] == "integer")
+				}
+				if r == Reject {
+					m.fire("NULL_OBJECT_VALIDATES_ZERO")
+					return Reject, true
+				}
+			}
+		}
+	}
 	// null handed to the unmarshaler of a struct with typed additional properties makes mapstructure fail
 	if m.dev("NULL_TO_ADDL_STRUCT_ERRORS") && v == nil && has(tl, "null") && !(p.Kind == "prop" && p.Optional) {
 		if _, ok := s["properties"].(map[string]any); ok {
